@@ -35,6 +35,7 @@ type Obligation struct {
 	TimeoutMs int     // per-obligation solver budget override (0: tier default)
 	Expand func() []*Obligation // on failure: finer obligations that localise the failure
 	Batch  string     // obligations with the same batch key share one incremental solver run
+	ReplaySrc string  // engine-provided in-package test that replays the obligation on the real code
 	localSlice bool   // (solver driver) build the query with the aggressive local slice
 	noLocal   bool
 	NoStatics bool    // the query carries its own selection of table axioms in Extra
